@@ -92,6 +92,16 @@ def budget_hit(events):
     return any(e[0] == 'budget' for e in events)
 
 
+def outcap_hit(events):
+    """the case was abandoned by the harness after a check/extract had produced more than the output cap (64 MiB): bounded
+    work, too much of it; the log is incomplete and nothing beyond 'proportional so far' may be concluded from it"""
+    return any(e[0] == 'outcap' for e in events)
+
+
+def abandoned(events):
+    return any(e[0] in ('budget', 'outcap') for e in events)
+
+
 def complete(events):
     return bool(events) and events[-1][0] == 'end'
 
